@@ -1,5 +1,6 @@
 //! Decoders: bytes (choice source) -> AST. One function family per generator family.
 pub mod fd;
 pub mod search;
+pub mod surface;
 pub mod terms;
 pub mod tree;
